@@ -736,9 +736,19 @@ package interpreter
 //@ func (Portion).String
 //@   ensures [fraction-text] {C13} result == ratstr(rat(p))
 //@   modifies nothing
+// the JSON of a value is built from the same renderings (big.Int.String / big.Rat.String) as its String(): the
+// `calls` clause closes the list of library functions these encoders may use (C13, C20)
 //@ func (Portion).MarshalJSON
+//@   calls fmt.Sprintf (*math/big.Rat).String
+//@   ensures [no-error] {C13,C20} err == nil
 //@   modifies nothing
 //@ func (MonetaryInt).MarshalJSON
+//@   calls fmt.Sprintf (*math/big.Int).String
+//@   ensures [no-error] {C13,C20} err == nil
+//@   modifies nothing
+//@ func (Monetary).MarshalJSON
+//@   calls fmt.Sprintf (*math/big.Int).String
+//@   ensures [no-error] {C13,C20} err == nil
 //@   modifies nothing
 
 // ---------------------------------------------------------------- C07, BOUNDED stand-in (not a proof): the pairing order
